@@ -155,7 +155,7 @@ def run(ctx):
     # crossover probabilities ASSIGNED FROM A GENETIC MAP (Haldane): the map's distances are -ln(1-2p)/2, so the declared
     # probabilities are the layout's; the matrix was built with other genetic positions and annotated with another map first
     # (a revised map must replace whatever positions the matrix held)
-    def map_annotated_parents(xoprob, first_label=1):
+    def map_annotated_parents(xoprob, first_label=1, kosambi=False):
         from pybrops.popgen.gmat.DensePhasedGenotypeMatrix import DensePhasedGenotypeMatrix
         from pybrops.popgen.gmap.StandardGeneticMap import StandardGeneticMap
         from pybrops.popgen.gmap.HaldaneMapFunction import HaldaneMapFunction
@@ -164,7 +164,7 @@ def run(ctx):
         phy = np.arange(10, 10 + 7 * Lx, 7, dtype="int64")
         gen = np.zeros(Lx)
         for j in range(1, Lx):
-            gen[j] = 0.0 if xoprob[j] == 0.5 else gen[j - 1] - math.log(1.0 - 2.0 * xoprob[j]) / 2.0
+            gen[j] = 0.0 if xoprob[j] == 0.5 else gen[j - 1] + (math.atanh(2.0 * xoprob[j]) / 2.0 if kosambi else -math.log(1.0 - 2.0 * xoprob[j]) / 2.0)
         mat = np.empty((2, 4, Lx), dtype="int8")
         for i in range(4):
             mat[0, i, :] = 2 * i; mat[1, i, :] = 2 * i + 1
@@ -175,20 +175,26 @@ def run(ctx):
         first = StandardGeneticMap(vrnt_chrgrp=chrgrp, vrnt_phypos=phy, vrnt_genpos=phy.astype(float) * 1e-4)
         pg.interp_xoprob(first, HaldaneMapFunction())
         revised = StandardGeneticMap(vrnt_chrgrp=chrgrp, vrnt_phypos=phy, vrnt_genpos=gen)
-        pg.interp_xoprob(revised, HaldaneMapFunction())
+        if kosambi:
+            # Kosambi: r = tanh(2d)/2 for the same declared per-interval probabilities (crossovers in different intervals are
+            # drawn independently whatever function assigned them, so non-adjacent pairs still compose by 1-2r)
+            from pybrops.popgen.gmap.KosambiMapFunction import KosambiMapFunction
+            pg.interp_xoprob(revised, KosambiMapFunction())
+        else:
+            pg.interp_xoprob(revised, HaldaneMapFunction())
         return pg
-    for pkey in ("2wdh", "2w") if "2wdh" in PROTOS and "2w" in PROTOS else list(PROTOS)[:2]:
-        xoprob = layouts[0] if pkey.endswith("dh") else layouts[2]
+    for pkey, kos in (("2wdh", False), ("2w", False), ("2wdh", True)):
+        xoprob = layouts[0] if (pkey.endswith("dh") and not kos) else layouts[2]
         cls_name, npar = PROTOS[pkey]
         cls = getattr(importlib.import_module("pybrops.breed.prot.mate." + cls_name), cls_name)
         row = [0, 1, 2, 3][:npar]
-        def runm(nn, seed, cls=cls, pkey=pkey, xoprob=xoprob, row=row):
+        def runm(nn, seed, cls=cls, pkey=pkey, xoprob=xoprob, row=row, kos=kos):
             g = np.random.default_rng(seed)
-            pg = map_annotated_parents(xoprob, 0 if pkey.endswith("dh") else 1)
+            pg = map_annotated_parents(xoprob, 0 if pkey.endswith("dh") else 1, kos)
             out = cls(rng=g).mate(pg, np.array([row]), 1, nn, nself=0) if pkey.endswith("dh") else \
                 cls(rng=g).mate(pg, np.array([row]), nn, 1, nself=0)
             return source_matrix(pkey, out.mat, row)
-        add_stat(cls_name + ".mate[xoprob from a revised genetic map]", xoprob, runm)
+        add_stat(cls_name + ".mate[xoprob from a revised genetic map%s]" % (", Kosambi" if kos else ""), xoprob, runm)
 
     tl = [{k: v for k, v in c.items() if k not in ("run", "xoprob")} for c in stat]
     verd = cases.validate(ctx, "MeiosisProb_Trace", "MeiosisProb_Trace.cfg", allc + tl, "MeiosisProb_Trace",
